@@ -60,6 +60,8 @@ NamedRefs == { [n |-> <<97, 109, 112>>, v |-> 38], [n |-> <<108, 116>>, v |-> 60
 
 RECURSIVE DigitRun(_, _, _)
 DigitRun(inp, p, hex) == IF (IF hex THEN IsHex(At(inp, p)) ELSE IsDigit(At(inp, p))) THEN 1 + DigitRun(inp, p + 1, hex) ELSE 0
+RECURSIVE ZeroRun(_, _, _)
+ZeroRun(inp, p, n) == IF n > 0 /\ At(inp, p) = 48 THEN 1 + ZeroRun(inp, p + 1, n - 1) ELSE 0
 RECURSIVE NumVal(_, _, _, _)
 NumVal(inp, p, n, base) == IF n = 0 THEN 0 ELSE NumVal(inp, p, n - 1, base) * base + HexVal(inp[p + n - 1])
 
@@ -69,9 +71,12 @@ CharRef(inp, p) ==
   THEN LET hex   == At(inp, p + 1) \in {120, 88}
            start == IF hex THEN p + 2 ELSE p + 1
            nd    == DigitRun(inp, start, hex)
-       IN  IF nd = 0 \/ nd > 6 THEN [n |-> 0, data |-> <<>>]
+           \* leading zeros carry no value: any number of them may precede the significant digits
+           lead  == ZeroRun(inp, start, nd)
+           sig   == nd - lead
+       IN  IF nd = 0 \/ sig > 6 THEN [n |-> 0, data |-> <<>>]         \* (more than six significant digits: outside the generated domain)
            ELSE [n |-> (start - p) + nd + (IF At(inp, start + nd) = SEMI THEN 1 ELSE 0),
-                 data |-> <<NumVal(inp, start, nd, IF hex THEN 16 ELSE 10)>>]
+                 data |-> <<NumVal(inp, start + lead, sig, IF hex THEN 16 ELSE 10)>>]
   ELSE LET M == {r \in NamedRefs : /\ p + Len(r.n) <= Len(inp)
                                    /\ SubSeq(inp, p, p + Len(r.n) - 1) = r.n
                                    /\ inp[p + Len(r.n)] = SEMI}
